@@ -40,6 +40,7 @@ def check(run):
         run.guard("C16.2.bin-pairing", cfg, lambda: rule_pairing(run, F, cfg))
         run.guard("C16.3.populate-before-prune", cfg, lambda: rule_order(run, F, cfg))
         run.guard("C16.4.storing", cfg, lambda: rule_store(run, F, cfg))
+        run.guard("C16.4.storing", cfg + "/grow-only", lambda: rule_stores_only_grow(run, F, cfg))
         run.guard("C16.4.storing", cfg + "/kind", lambda: rule_kind_table(run, F, cfg))
         run.guard("C16.4.storing", cfg + "/normalisation", lambda: rule_same_normalisation(run, F, cfg))
         run.guard("C16.6.blanket-script-exception", cfg, lambda: rule_blanket_flag(run, F, cfg))
@@ -62,7 +63,7 @@ def check(run):
         run.guard("C16.5.generichide", cfg, lambda: rule_generichide(run, F, cfg))
         b = run.borrow("C08", why="per-hostname cosmetic rules and exceptions must survive serialize/deserialize")
         run.guard("C16.via.C08.3.legacy-bijection", cfg, lambda: _C08.rule_legacy(b, F, cfg))
-        b2 = run.borrow("C08", only=r"cosmetic_filter_cache::(HostnameRuleDb|CosmeticFilterCache)\.(specific_rules|misc_generic_selectors|hide|unhide|inject_script|uninject_script|procedural_action|procedural_action_exception|style|unstyle|remove|unremove)",
+        b2 = run.borrow("C08", only=r"cosmetic_filter_cache::(HostnameRuleDb|CosmeticFilterCache)\.(?!simple_|complex_)\w+|reader-installs-whole-collections",
                         why="per-hostname cosmetic state must be written and restored field by field")
         run.guard("C16.via.C08.1.state-coverage", cfg, lambda: _C08.rule_coverage(b2, F, cfg))
         b3 = run.borrow("C08", only=r"SerializeFormat", why="the per-host rule stores and their exception twins have the same type: only their position on the wire tells them apart")
@@ -743,3 +744,31 @@ def rule_effects(run, F, cfg):
     run.ob("C16.4.storing", "stored-under-every-location", oks,
            "store_rule stores `kind` under every hostname and entity of the rule and `kind.negated()` under every negated "
            f"hostname and entity (for_each over the two chains; stores {stores})", site=sr.loc(0), config=cfg)
+
+
+
+def rule_stores_only_grow(run, F, cfg):
+    """Who-may-call rule for the cosmetic stores: a rule that was filed (a generic selector, a host-specific selector,
+    an exception, a scriptlet) stays filed. Apart from the two `&self` query functions, whose removals act on the
+    per-call result sets, no function of cosmetic_filter_cache.rs calls retain / remove / clear / truncate / dedup.
+    ("These rules are redundant" clean-ups look at one store and forget what another feature -- a `$generichide`
+    exception, a per-site `#@#` -- does with the other.)"""
+    from .C01 import SHRINKING_CALLS
+    QUERY = ("cosmetic_filter_cache::CosmeticFilterCache::hostname_cosmetic_resources",
+             "cosmetic_filter_cache::CosmeticFilterCache::hidden_class_id_selectors")
+    found, n = [], 0
+    for nme, f in F.fns.items():
+        if not nme.startswith("cosmetic_filter_cache::") or any(nme == q or nme.startswith(q + "::") for q in QUERY):
+            continue
+        if f.j.get("kind") == "Derive" or "::_::" in nme:
+            continue
+        run.touched(f)
+        for b, t in f.calls():
+            n += 1
+            c = strip_generics(t["callee"])
+            if SHRINKING_CALLS.search(c):
+                found.append((nme.split("::", 1)[-1], c.split("::")[-1], f.loc(b)))
+    run.floor("C16.4.storing", f"call sites of the store side scanned for shrinking calls [{cfg}]", n, 40)
+    run.ob("C16.4.storing", "stores-only-grow", not found,
+           f"outside the two query functions nothing in cosmetic_filter_cache.rs removes entries from a collection ({n} call "
+           f"sites); found: {found[:3]}", site=found[0][2] if found else "", config=cfg)
